@@ -99,7 +99,9 @@ def main():
         try:
             for p in props:
                 r = run_check(p, a.tier)
-                matrix.setdefault(sid, {}).setdefault("checks", {})[p + "/" + a.tier] = r
+                sd = os.environ.get("VERIF_SEED", "0")
+                key = p + "/" + a.tier + ("" if sd == "0" else "@seed" + sd)
+                matrix.setdefault(sid, {}).setdefault("checks", {})[key] = r
                 matrix[sid]["apply"] = which
                 print("%s  %s/%s -> %s %s (%.0fs)" % (sid, p, a.tier, r["status"], r["mechanisms"][:3], r["wall_s"]))
         finally:
